@@ -57,6 +57,38 @@ def derive_all(l):
     yield 'store_slice', lambda: Builder().store_slice(l.begin_parse()).end_cell()
     yield 'slice.copy.to_cell', lambda: l.begin_parse().copy().to_cell()
     yield 'slice.to_builder.end_cell', lambda: l.begin_parse().to_builder().end_cell()
+    # ... and the object the cell was converted from keeps being used afterwards
+
+    def _after_slice_reads():
+        s = l.begin_parse()
+        c = s.to_cell()
+        if len(s.bits):
+            s.load_bits(min(7, len(s.bits)))
+        if s.refs:
+            s.load_ref()
+        return c
+    yield 'slice.to_cell-then-slice-is-read', _after_slice_reads
+
+    def _after_builder_stores():
+        b = l.to_builder()
+        c = b.end_cell()
+        if len(c.bits) < 1023:
+            b.store_bits('1')
+        if len(c.refs) < 4:
+            b.store_ref(l)
+        return c
+    yield 'to_builder.end_cell-then-builder-stores', _after_builder_stores
+
+    def _copy_then_source_used():
+        c = l.copy()
+        sl = l.begin_parse()
+        if len(sl.bits):
+            sl.skip_bits(1)
+        bb = l.to_builder()
+        if len(l.refs) < 4:
+            bb.store_ref(c)
+        return c
+    yield 'copy-then-source-derivatives-used', _copy_then_source_used
 
 
 def check(case):
@@ -69,6 +101,27 @@ def check(case):
         return Fail(f'construction-raises/{route}', f'{exc_sig(lib)}: {lib!r}')
     for r, l in zip(cells, lib):
         f = node_problem(r, l, route)
+        if f:
+            return f
+    # an operation the library must refuse (a cell that would be deeper than 1023; an over-full builder; a corrupt bag) happens
+    # in between: what is built and hashed afterwards is not affected by it
+    from pytoniq_core.boc.builder import Builder as _B
+    ok, deep = call(lambda: _B(type_=1).store_bits(rc.pruned_raw(1, [b'\x11' * 32], [1023]).bits).end_cell())
+    if ok:
+        call(lambda: _B().store_ref(deep).end_cell())
+    call(lambda: _B().store_bits('1' * 1023).store_bits('1'))
+    call(Cell.one_from_boc, b'\xb5\xee\x9c\x72\x01\x01\x02\x01\x00\x05\x00\x01\x01\x00\x01')
+    ok, lib_after = call(dag.lib_from_ref, cells, route)
+    if not ok:
+        return Fail(f'construction-raises/{route}/after-refused-operations', f'{exc_sig(lib_after)}: {lib_after!r}')
+    for r, l in zip(cells, lib_after):
+        f = node_problem(r, l, route + '/after-refused-operations')
+        if f:
+            return f
+    # history: derived builders / slices / serialisations of inner nodes are used; the cells are values and stay what they were
+    dag.disturb(lib)
+    for r, l in zip(cells, lib):
+        f = node_problem(r, l, route + '/after-derived-objects-were-used')
         if f:
             return f
     # derived routes (on up to 6 nodes incl. the root, chosen deterministically)
@@ -178,6 +231,50 @@ def check(case):
     return None
 
 
+def check_twins(case):
+    """an ordinary cell that has the shape (bit length, reference count) of an exotic cell created earlier in the same process"""
+    from pytoniq_core.boc.builder import Builder
+    leafs = [rc.RCell('1011', []), rc.RCell('0', [])]
+    kind = case['kind']
+    if kind == 'library':
+        ex = rc.library_ref(b'\x42' * 32)
+    elif kind == 'mproof':
+        ex = rc.merkle_proof(leafs[0])
+    elif kind == 'mupdate':
+        ex = rc.merkle_update(leafs[0], leafs[1])
+    else:
+        m = case['mask']
+        n = bin(m).count('1')
+        ex = rc.pruned_raw(m, [bytes([i + 1]) * 32 for i in range(n)], [i for i in range(n)])
+    twin = rc.RCell(ex.bits, ex.refs, False)                       # same bits, same children, not exotic
+    order = [ex, twin] if case['first'] == 'exotic' else [twin, ex]
+    built = {}
+    for r in order:
+        ok, l = call(dag.lib_from_rcell, r, 'builder')
+        if not ok:
+            if r is twin:
+                return Fail('construction-raises/ordinary-twin', f'{exc_sig(l)}: {l!r}')
+            return None                                            # exotic cells are C02's business
+        built[id(r)] = l
+    f = node_problem(twin, built[id(twin)], f'ordinary-twin-of-{kind}/{case["first"]}-first')
+    if f:
+        return f
+    boc = refboc.encode([twin])
+    from pytoniq_core.boc.cell import Cell
+    ok, p = call(Cell.one_from_boc, boc)
+    if not ok:
+        return Fail('parse-reference-boc-raises/ordinary-twin', f'{exc_sig(p)}: {p!r}')
+    return node_problem(twin, p, f'ordinary-twin-of-{kind}/parsed')
+
+
+def enum_twins(tier):
+    for first in ('exotic', 'ordinary'):
+        for kind in ('library', 'mproof', 'mupdate'):
+            yield {'kind': kind, 'first': first}
+        for m in range(1, 8):
+            yield {'kind': 'pruned', 'mask': m, 'first': first}
+
+
 def enum_all_lengths(tier):
     for n in range(1024):
         for fill in (0, 1, 2):
@@ -230,6 +327,9 @@ def nt(case):
 SUBCHECKS = [
     Sub('all-lengths-x-fills-x-refs', check, enum=enum_all_lengths, classify=classify, nontrivial=nt, shards=(16, 16),
         exhaustive=True, note='15 360 cells: every bit length 0..1023 x 3 fills x 0..4 refs'),
+    Sub('exotic-shape-twins', check_twins, enum=enum_twins, shards=(2, 2), exhaustive=True,
+        note='ordinary cells with exactly the bit length and reference count of library / Merkle proof / Merkle update / pruned '
+             '(masks 1..7) cells, created after and before the exotic cell of that shape in one process'),
     Sub('deep-chains', check, enum=enum_chains, classify=classify, nontrivial=nt, shards=(8, 8), case_cpu_s=120,
         note='chains and doubling ladders of depth 1000..1023'),
     Sub('dags', check, strategy=strat, classify=classify, nontrivial=nt, n=(2000, 60000), shards=(16, 32)),
